@@ -42,7 +42,7 @@ class Project:
             e.update(extra)
         return e
 
-    def run(self, argv, extra=None, timeout=60, slots=None, cwd=None, verif_log=True, stuck_after=5.0):
+    def run(self, argv, extra=None, timeout=60, slots=None, cwd=None, verif_log=True, stuck_after=5.0, stutter=None):
         """Run one command; with `slots` the harness plays the parent jobserver."""
         env = self.env(extra, verif_log)
         js = None
@@ -52,7 +52,7 @@ class Project:
             env.update(js.env())
             fds = js.fds()
         try:
-            r = run_cmd(argv, cwd or self.top, env=env, timeout=timeout, pass_fds=fds, stuck_after=stuck_after)
+            r = run_cmd(argv, cwd or self.top, env=env, timeout=timeout, pass_fds=fds, stuck_after=stuck_after, stutter=stutter)
             r_tokens = (js.initial, js.drain()) if js else None
         finally:
             if js:
